@@ -54,7 +54,8 @@ def run(tier, seed):
         directed=(DIRECTED + kc.MULTI_DIRECTED
                   + kc.clause("aspa-rtr-shrink-regain", "roa-replaced",
                               "roll-new-key-covers-more",
-                              "roll-new-key-covers-less")
+                              "roll-new-key-covers-less",
+                              "multi-class-lost-and-regained")
                   + kc.HOLD_DIRECTED[:1]),
         theme_nums={"multi": (4, 60), "mix": (4, 60)},
         mc_cfgs=(kc.QUICK_MC + ["MC_Krill_q_multi.cfg"] if tier == "quick"
